@@ -133,6 +133,7 @@ type uciWorld struct {
 	rdPartial    string // reader-side bytes of the current unfinished line
 	anyInterrupt bool
 	stackBuf     []byte
+	readyokOwed  int // isready lines handed to the reader minus readyok lines seen at the writer
 	pending      []byte
 	hasPend      bool
 	parked       bool
@@ -300,6 +301,13 @@ func (ws *wrapSearch) Go(b *board.Board, opts ...search.Option) (score chess.Sco
 		return 0, m, p
 	}
 
+	if call.Opts.Stop != nil {
+		// the exact simulated instant at which the driver closes the stop channel
+		go func(stop <-chan struct{}) {
+			<-stop
+			call.TStop = w.now()
+		}(call.Opts.Stop)
+	}
 	a := &agent{coop: w.co, stop: make(chan struct{}), pollCap: 1 << 60, extStop: true}
 	a.req.Nodes = -1
 	registerAgent(ws.inner, a)
@@ -343,6 +351,7 @@ func (w *uciWorld) settle() {
 				select {
 				case w.rd.ch <- chunk:
 					w.pipe = w.pipe[1:]
+					w.readyokOwed += countLines(w.rdPartial+string(chunk), "isready")
 					w.rdPartial = w.afterChunk(chunk)
 					synctest.Wait()
 					w.ev("READ", string(chunk), 0)
@@ -351,6 +360,9 @@ func (w *uciWorld) settle() {
 				}
 			}
 		} else if w.eofQueued && !w.eofSent && !w.hazard && !w.realSearchUnparked() {
+			if firstToken(w.rdPartial) == "isready" {
+				w.readyokOwed++ // an unterminated last line is still a line
+			}
 			close(w.rd.ch)
 			w.eofSent = true
 			progressed = true
@@ -359,6 +371,9 @@ func (w *uciWorld) settle() {
 			select {
 			case p := <-w.wr.offer:
 				w.pending, w.hasPend = p, true
+				if string(p) == "readyok\n" {
+					w.readyokOwed--
+				}
 				w.ev("WOFFER", string(p), 0)
 				progressed = true
 			default:
@@ -391,7 +406,10 @@ func (w *uciWorld) settle() {
 // waiting in its select and whether the reader is holding an undelivered line.
 func (w *uciWorld) inspect() {
 	w.hazard, w.readerPending = false, false
-	if w.cur == nil && !w.anyInterrupt {
+	// the interrupt goroutine can only be outside its select while it writes a
+	// readyok: no isready in flight, no hazard, no need to look
+	if w.readyokOwed <= 0 || (w.cur == nil && !w.anyInterrupt) {
+		w.anyInterrupt = w.cur != nil
 		return
 	}
 	if w.stackBuf == nil {
@@ -428,6 +446,21 @@ func (w *uciWorld) inspect() {
 // may run on and even finish without passing through the scheduler.
 func (w *uciWorld) realSearchUnparked() bool {
 	return w.cur != nil && w.curAgent != nil && !w.parked
+}
+
+// countLines counts the complete lines of t whose first word is kw.
+func countLines(t, kw string) int {
+	n := 0
+	for {
+		i := strings.IndexByte(t, '\n')
+		if i < 0 {
+			return n
+		}
+		if firstToken(t[:i]) == kw {
+			n++
+		}
+		t = t[i+1:]
+	}
 }
 
 // afterChunk returns the unterminated tail the reader holds after chunk.
